@@ -379,6 +379,11 @@ async def main(loop):
                 os.write(log, b"S %%d %%d %%d\n" %% (who, c, no))
                 if rng.random() < 0.5:
                     time.sleep(rng.random() * 0.002)
+                if rng.random() < 0.03:
+                    # a slow terminal: the exchange takes a long time (in
+                    # real time; the other processes poll for the lock
+                    # hundreds of times meanwhile)
+                    time.sleep(0.15)
                 for _ in range(rng.randint(1, 3)):
                     await asyncio.sleep(0)
                 os.write(log, b"E %%d %%d %%d\n" %% (who, c, no))
